@@ -26,11 +26,12 @@ IsNone(a) == a.k = "none"
 \* length a value would have as an array ("badrange"/"nonint" are 1-d sequences too)
 IsSeq(val) == val.k \in {"seq", "badrange", "nonint"}
 
-VARIABLES kind,            \* "source" | "conv" : which object this behaviour drives
+VARIABLES kind,            \* "source" | "conv" | "sed" : which object this behaviour drives
           sv, sf, se,      \* Source: valid, flux, error
           cn, ca, cf, ce,  \* ConvolvedFluxes: n_models | -1, n_ap | -1 (apertures None), flux shape <<a,b>> | <<>>, error shape
+          dw, dn, da, dx,  \* SED: length of the stored wav | -1, of the stored nu | -1, n_ap | -1 (apertures None), flux shape | <<>>
           hist             \* the calls made, with outcome and the state after (emission only)
-vars == <<kind, sv, sf, se, cn, ca, cf, ce, hist>>
+vars == <<kind, sv, sf, se, cn, ca, cf, ce, dw, dn, da, dx, hist>>
 
 \* ALGORITHM: Source.n_wav
 NWav == IF ~IsNone(sv) THEN Len(sv.v) ELSE IF ~IsNone(sf) THEN Len(sf.v) ELSE IF ~IsNone(se) THEN Len(se.v) ELSE -1
@@ -51,7 +52,7 @@ SetSrc(attr, val) ==
          /\ sf' = IF o = "ok" /\ attr = "flux" THEN stored ELSE sf
          /\ se' = IF o = "ok" /\ attr = "error" THEN stored ELSE se
          /\ hist' = Append(hist, [op |-> "set", attr |-> attr, val |-> val, out |-> o])
-  /\ UNCHANGED <<kind, cn, ca, cf, ce>>
+  /\ UNCHANGED <<kind, cn, ca, cf, ce, dw, dn, da, dx>>
 
 (* -------------------------- ConvolvedFluxes -------------------------- *)
 \* values: model_names: none | 1-d of n names | scalar ; apertures: none | 1-d length quantity of k | bare numbers (no unit) |
@@ -79,9 +80,44 @@ SetConv(attr, val) ==
      /\ cf' = IF o = "ok" /\ attr = "flux" THEN (IF val.k = "none" THEN <<>> ELSE val.s) ELSE cf
      /\ ce' = IF o = "ok" /\ attr = "error" THEN (IF val.k = "none" THEN <<>> ELSE val.s) ELSE ce
      /\ hist' = Append(hist, [op |-> "set", attr |-> attr, val |-> val, out |-> o])
-  /\ UNCHANGED <<kind, sv, sf, se>>
+  /\ UNCHANGED <<kind, sv, sf, se, dw, dn, da, dx>>
 
-Init == /\ kind \in {"source", "conv"}
+(* -------------------------------- SED -------------------------------- *)
+\* wav and nu are two views of ONE spectral axis: the getter of the one that is not stored derives it from the other.  The setters
+\* validate the length against the OTHER view AS THE GETTER RETURNS IT -- so an axis stored as wav alone also fixes the length a new
+\* wav must have (named behaviour SelfBlocking again), and wav and nu may be set to values that contradict each other (only the
+\* lengths are compared: named behaviour AxesMayDisagree, not modelled further).
+SMenu == << [k |-> "none", n |-> 0], [k |-> "seq", n |-> 2], [k |-> "seq", n |-> 3], [k |-> "bare", n |-> 2], [k |-> "wrongtype", n |-> 2] >>
+ViewLen(stored, other) == IF stored # -1 THEN stored ELSE other        \* length the getter reports (-1: None)
+WavLen == ViewLen(dw, dn)
+NuLen == ViewLen(dn, dw)
+SNAp == IF da = -1 THEN 1 ELSE da
+SedOutcome(attr, val) ==
+  IF val.k = "none" THEN "ok"
+  ELSE IF attr \in {"wav", "nu"} THEN
+         IF val.k # "seq" THEN "TypeError"
+         ELSE LET other == IF attr = "wav" THEN NuLen ELSE WavLen
+              IN  IF other # -1 /\ val.n # other THEN "ValueError" ELSE "ok"
+  ELSE IF attr = "apertures" THEN (IF val.k = "seq" THEN "ok" ELSE "TypeError")
+  ELSE \* flux
+       IF val.k \in {"bare", "wrongtype", "oned"} THEN "TypeError"
+       ELSE IF WavLen = -1 \/ val.s # <<SNAp, WavLen>> THEN "ValueError"     \* no spectral axis: n_wav is None, no shape matches
+       ELSE "ok"
+SetSed(attr, val) ==
+  /\ kind = "sed" /\ Len(hist) < MaxOps
+  /\ LET o == SedOutcome(attr, val) IN
+     /\ dw' = IF o = "ok" /\ attr = "wav" THEN (IF val.k = "none" THEN -1 ELSE val.n) ELSE dw
+     /\ dn' = IF o = "ok" /\ attr = "nu" THEN (IF val.k = "none" THEN -1 ELSE val.n) ELSE dn
+     /\ da' = IF o = "ok" /\ attr = "apertures" THEN (IF val.k = "none" THEN -1 ELSE val.n) ELSE da
+     /\ dx' = IF o = "ok" /\ attr = "flux" THEN (IF val.k = "none" THEN <<>> ELSE val.s) ELSE dx
+     /\ hist' = Append(hist, [op |-> "set", attr |-> attr, val |-> val, out |-> o])
+  /\ UNCHANGED <<kind, sv, sf, se, cn, ca, cf, ce>>
+\* flux values for the SED: shapes <<n_ap, n_wav>>
+SXMenu == << [k |-> "none", s |-> <<>>], [k |-> "arr", s |-> <<1, 2>>], [k |-> "arr", s |-> <<1, 3>>], [k |-> "arr", s |-> <<2, 2>>], [k |-> "arr", s |-> <<2, 3>>],
+             [k |-> "oned", s |-> <<2>>], [k |-> "bare", s |-> <<1, 2>>] >>
+
+Init == /\ kind \in {"source", "conv", "sed"}
+        /\ dw = -1 /\ dn = -1 /\ da = -1 /\ dx = <<>>
         /\ sv = None /\ sf = None /\ se = None
         /\ cn = -1 /\ ca = -1 /\ cf = <<>> /\ ce = <<>> /\ hist = <<>>
 Next == \/ \E i \in 1..Len(VMenu) : SetSrc("valid", VMenu[i])
@@ -89,6 +125,9 @@ Next == \/ \E i \in 1..Len(VMenu) : SetSrc("valid", VMenu[i])
         \/ \E i \in 1..Len(NMenu) : SetConv("model_names", NMenu[i])
         \/ \E i \in 1..Len(AMenu) : SetConv("apertures", AMenu[i])
         \/ \E i \in 1..Len(XMenu) : SetConv("flux", XMenu[i]) \/ SetConv("error", XMenu[i])
+        \/ \E i \in 1..Len(SMenu) : SetSed("wav", SMenu[i]) \/ SetSed("nu", SMenu[i])
+        \/ \E i \in 1..Len(AMenu) : SetSed("apertures", AMenu[i])
+        \/ \E i \in 1..Len(SXMenu) : SetSed("flux", SXMenu[i])
 Spec == Init /\ [][Next]_vars
 
 (* ------------------------------ properties ------------------------------ *)
@@ -96,7 +135,7 @@ Spec == Init /\ [][Next]_vars
 LengthsAgree == \A a, b \in {sv, sf, se} : (~IsNone(a) /\ ~IsNone(b)) => Len(a.v) = Len(b.v)
 FlagsLegal == ~IsNone(sv) => \A j \in 1..Len(sv.v) : sv.v[j] \in {0, 1, 2, 3, 4, 9}
 \* a refused call changes nothing
-RefusedStep == (hist' # hist /\ hist'[Len(hist')].out # "ok") => UNCHANGED <<sv, sf, se, cn, ca, cf, ce>>
+RefusedStep == (hist' # hist /\ hist'[Len(hist')].out # "ok") => UNCHANGED <<sv, sf, se, cn, ca, cf, ce, dw, dn, da, dx>>
 RefusedIsNoop == [][RefusedStep]_vars
 \* declarative reading of the Source setters: a 1-d value is accepted iff its length agrees with the OTHER attributes that are set ...
 Others(attr) == IF attr = "valid" THEN {sf, se} ELSE IF attr = "flux" THEN {sv, se} ELSE {sv, sf}
@@ -121,8 +160,15 @@ FluxStep == (kind = "conv" /\ ShapeOk(cf) /\ ShapeOk(ce) /\ hist' # hist /\ hist
 ShapeConsistentUnlessDimsReset == [][FluxStep]_vars
 FluxNeedsNames == kind = "conv" => (cn = -1 => \A i \in 2..Len(XMenu) : ConvOutcome("flux", XMenu[i]) # "ok")
 
+\* SED: the two views of the spectral axis never report different lengths, and a flux array is accepted only when an axis exists
+AxisLengthsAgree == kind = "sed" => (dw = -1 \/ dn = -1 \/ dw = dn)
+SedFluxNeedsAxis == kind = "sed" => (WavLen = -1 => \A i \in 2..Len(SXMenu) : SedOutcome("flux", SXMenu[i]) # "ok")
+\* reachability of SelfBlocking for the SED (negated in MC_ObjProto_reach.cfg): an axis stored as wav alone refuses a new wav of another length
+SedNeverSelfBlocked == ~(kind = "sed" /\ dw # -1 /\ dn = -1 /\ SedOutcome("wav", [k |-> "seq", n |-> (IF dw = 2 THEN 3 ELSE 2)]) = "ValueError")
+
 (* ------------------------------ emission ------------------------------ *)
 Done == Len(hist) = MaxOps
 ConvState == [n_models |-> cn, n_ap |-> NAp, apertures_none |-> (ca = -1), flux |-> cf, error |-> ce]
-EmitInv == Done => PrintT(ToJson([kind |-> kind, hist |-> hist, src |-> SrcState, conv |-> ConvState, stale |-> ~(ShapeOk(cf) /\ ShapeOk(ce))]))
+SedState == [wav_len |-> WavLen, nu_len |-> NuLen, wav_stored |-> (dw # -1), nu_stored |-> (dn # -1), n_ap |-> SNAp, apertures_none |-> (da = -1), flux |-> dx]
+EmitInv == Done => PrintT(ToJson([kind |-> kind, hist |-> hist, src |-> SrcState, conv |-> ConvState, sed |-> SedState, stale |-> ~(ShapeOk(cf) /\ ShapeOk(ce))]))
 =============================================================================
